@@ -291,6 +291,9 @@ def curated():
         E("EZ", [V("A", "unit", []), V("B", "tuple", [("0", "u16")]), V("C", "named", [("x", "u8"), ("y", "u64")])], ZC),
         E("EU", [V("North", "unit", []), V("South", "unit", []), V("East", "unit", [])], ZC),
         S("D1", [("id", "u32"), ("name", "String"), ("data", "Vec<u16>")]),
+        S("D1Z", [("data", "[u8; 4]")], ("deep_copy",)),
+        S("DN", [("0", "P1")], ("deep_copy",), style="tuple"),
+        S("DV", [("0", "Vec<u64>")], style="tuple"),
         S("DT", [("0", "u8"), ("1", "Vec<u64>"), ("2", "Option<String>")], style="tuple"),
         S("DU", [], ("deep_copy",), style="unit"),
         S("DZ", [("a", "u16"), ("b", "u64")], ("deep_copy",)),
